@@ -58,7 +58,7 @@ pub fn specs() -> Vec<PropSpec> {
             };
         }
         prop!("C06", coll!("C06", 2_000_000, 50_000_000));
-        prop!("C08", coll!("C08", 2_000_000, 50_000_000));
+        prop!("C08", coll!("C08", 2_000_000, 50_000_000), Stage { engine: || Box::new(bsv_coll::plain::PlainEngine), quick_cases: 1_000_000, thorough_cases: 25_000_000 });
         prop!("C15", coll!("C15", 600_000, 15_000_000));
         prop!("C16", coll!("C16", 1_500_000, 40_000_000));
         if let Some(p) = v.iter_mut().find(|p| p.id == "C07") {
